@@ -304,15 +304,23 @@ class SelectWorkersContract(Contract):
         valid = [valid_placement(t, 1, hz, H), hz >= 0, hz <= T(H)]
         aux = []
         wit = []
-        for i, (w, b) in enumerate(zip(workers, sel)):
-            bs, be = busy(w, t)
-            # witness: selected -> the task's span; not selected -> the library's unique negative points -2, -3, ...
-            up = z3.IntVal(spec.unselected_point(t, w))
-            wit.append((bs, If(b, t._start, up)))
-            wit.append((be, If(b, t._end, up)))
-        goal = z3.substitute(And(*A), *wit)
+        note = None
+        try:
+            for i, (w, b) in enumerate(zip(workers, sel)):
+                bs, be = busy(w, t)
+                # witness: selected -> the task's span; not selected -> the library's unique negative points -2, -3, ...
+                up = z3.IntVal(spec.unselected_point(t, w))
+                wit.append((bs, If(b, t._start, up)))
+                wit.append((be, If(b, t._end, up)))
+            goal = z3.substitute(And(*A), *wit)
+        except ValueError as e:
+            # the task's own assertions leave no (single) place for the interval of a worker that is not selected: no
+            # witness -- the existential form is left to the solver
+            note = str(e)
+            intervals_ = [x for w in workers for x in busy(w, t)]
+            goal = z3.Exists(intervals_, And(*A))
         out.append(
-            Clause("complete", goal, hyps=valid + [spec.cmp_kind(kind, spec.count(sel), self.nb(P, case))], props=("C05", "C06"), kind="complete", bounded=self.bounded)
+            Clause("complete", goal, hyps=valid + [spec.cmp_kind(kind, spec.count(sel), self.nb(P, case))], props=("C05", "C06"), kind="complete", bounded=self.bounded, note=note)
         )
         return out
 
@@ -500,19 +508,23 @@ class WorkAmount(Contract):
         # C06: a task that is left out needs no work: whatever the work amount, leaving an optional task
         # out is admitted (witness: busy intervals at the task's / the selection's conventional points)
         if decode(case["t"])[1]:
-            pp = z3.IntVal(spec.past_point(t))
-            wit = [(t._start, pp), (t._end, pp)]
-            if case["t"][0] == "V":
-                wit.append((t._duration, z3.IntVal(0)))
-            for i, w in enumerate(workers):
-                bs, be = busy(w, t)
-                if case["mode"] == "select":
-                    b = ctx["sw"]._selection_dict[w]
-                    up = z3.IntVal(spec.unselected_point(t, w))
-                    wit += [(bs, If(b, pp, up)), (be, If(b, pp, up))]
-                else:
-                    wit += [(bs, pp), (be, pp)]
-            goal = z3.substitute(And(*A), *wit)
+            try:
+                pp = z3.IntVal(spec.past_point(t))
+                wit = [(t._start, pp), (t._end, pp)]
+                if case["t"][0] == "V":
+                    wit.append((t._duration, z3.IntVal(0)))
+                for i, w in enumerate(workers):
+                    bs, be = busy(w, t)
+                    if case["mode"] == "select":
+                        b = ctx["sw"]._selection_dict[w]
+                        up = z3.IntVal(spec.unselected_point(t, w))
+                        wit += [(bs, If(b, pp, up)), (be, If(b, pp, up))]
+                    else:
+                        wit += [(bs, pp), (be, pp)]
+                goal = z3.substitute(And(*A), *wit)
+            except ValueError:
+                # no single conventional point: some placement of the left-out task and of its intervals must do
+                goal = z3.Exists(spec.unscheduled_unknowns(t) + [x for w in workers for x in busy(w, t)], And(*A))
             hy = [Not(s), hz >= 0, hz <= T(H)]
             if case["mode"] == "select":
                 hy.append(Or(*[ctx["sw"]._selection_dict[w] for w in workers]))
